@@ -22,6 +22,10 @@ REQUIRED = {False: {'static_vector': 5, '~static_vector': 1, 'operator=': 2, 'cl
             True: {'static_vector': 3, '~static_vector': 1, 'operator=': 2, 'clear': 1, 'resize': 1,
                    'push_back': 1, 'emplace_back': 1}}
 
+# members that exist today (a member outside this list that other members call is a helper split off by a refactoring)
+TODAY = ('back', 'begin', 'c_str', 'clear', 'data', 'emplace_back', 'end', 'erase', 'front', 'operator+=', 'operator=',
+         'operator[]', 'push_back', 'resize', 'room', 'size', 'static_string', 'static_vector', '~static_vector')
+
 
 def pnames(f):
     return [p['name'] for p in f.params]
@@ -111,9 +115,21 @@ def run_unit(rep, repo, tier, twin, n):
             raise AnalysisBroken('%s: member %s instantiated %d time(s), expected >= %d (anchor vanished or witness out '
                                  'of date)' % (label, k, have.get(k, 0), c))
     members = []
+    helpers = []
     for f in fns:
+        if base_name(f) not in TODAY and any(c.callee == f.name for g in fns if g is not f for c in g.calls()):
+            # a member that did not exist when the contracts were written and that other members call: a helper split off
+            # by a refactoring; it is analysed, typestate included, in the context of each caller
+            helpers.append(f.qualname)
+            continue
         mb = member_for(f, n, tier)
         if mb is None:
+            # a member without a contract of its own (a helper introduced by a refactoring) is covered when members that
+            # have one call it: callees are analysed in the caller's context, typestate included
+            callers = [g for g in fns if g is not f and any(c.callee == f.name for c in g.calls())]
+            if callers:
+                helpers.append(f.qualname)
+                continue
             raise AnalysisBroken('%s: no lifetime contract for member %s%s' % (label, f.qualname, sig_suffix(f)))
         members.append((f, mb))
     lay = layout_for(mod, fns[0], n)
